@@ -51,7 +51,7 @@ def sha(path):
 
 def limit_as():
     # per-process virtual memory cap (CBMC that explodes dies instead of the box)
-    cap = 20 * 1024 ** 3
+    cap = 48 * 1024 ** 3
     resource.setrlimit(resource.RLIMIT_AS, (cap, cap))
 
 
@@ -110,7 +110,7 @@ MY_SRC = re.compile(r"(^|/)src/(c\d+\w*|oracle|lib|gen|harness\w*)\.rs$")
 
 def classify(js, names):
     """per harness: dict(status, failed=[(desc, file, fn)], stats, covers)"""
-    res = {n: dict(status="missing", failed=[], stats={}, props={}) for n in names}
+    res = {n: dict(status="missing", failed=[], stats={}, props={}, obl=0, obl_ok=0) for n in names}
     if not js:
         return res
     short = lambda hid: hid.split("::")[-1]  # noqa: E731
@@ -122,10 +122,20 @@ def classify(js, names):
         res[n]["duration_ms"] = r.get("duration_ms")
         for c in r.get("checks", []):
             st = c.get("status", "").lower()
+            loc = c.get("location", {})
             if st in ("failure", "failed"):
-                loc = c.get("location", {})
                 res[n]["failed"].append((c.get("description", ""), loc.get("file", ""),
                                          c.get("function", ""), c.get("category", "")))
+            # harness-level obligations: assertions written in /verif/kani/*/src (not generic
+            # memory-safety/overflow checks inside library code)
+            f = loc.get("file", "")
+            if c.get("category") == "assertion" and (not f.startswith("/") or f.startswith("/verif/kani/")) \
+                    and MY_SRC.search(f) and st != "unreachable" \
+                    and not re.match(r"(attempt to |unreachable|index out of bounds|This is a placeholder|"
+                                     r"internal error|explicit panic|arithmetic overflow)", c.get("description", "")):
+                res[n]["obl"] += 1
+                if st == "success":
+                    res[n]["obl_ok"] += 1
     for e in js.get("error_details", []):
         n = short(e["harness_id"])
         if n in res:
@@ -133,11 +143,11 @@ def classify(js, names):
     for e in js.get("property_details", []):
         n = short(e["harness_id"])
         if n in res:
-            res[n]["props"] = e.get("property_details", {})
+            res[n]["props"] = e.get("property_details") or {}
     for e in js.get("cbmc", []):
         n = short(e["harness_id"])
         if n in res:
-            res[n]["stats"] = e.get("cbmc_stats", {})
+            res[n]["stats"] = e.get("cbmc_stats") or {}
     return res
 
 
@@ -218,7 +228,7 @@ def kani_property(prop, tier, only, jobs, seed):
     for h in hs:
         by_crate.setdefault(h["crate"], []).append(h)
     hmap = {h["name"]: h for h in hs}
-    cap = int(os.environ.get("VERIF_CAP_S", "240" if tier == "quick" else "900"))
+    cap = int(os.environ.get("VERIF_CAP_S", "600" if tier == "quick" else "1800"))
     results, logs, build_fail = {}, {}, False
     for crate, lst in by_crate.items():
         names = [h["name"] for h in lst]
@@ -231,7 +241,7 @@ def kani_property(prop, tier, only, jobs, seed):
             continue
         results.update(classify(js, names))
 
-    inconclusive, violations, known_lines, passed = [], [], [], []
+    inconclusive, violations, known_lines, passed, unreplayed = [], [], [], [], []
     known = load_known()
     dev_only = []
     for name, r in sorted(results.items()):
@@ -252,7 +262,11 @@ def kani_property(prop, tier, only, jobs, seed):
         if any("unwinding assertion" in d for d in descs):
             inconclusive.append((name, "unwinding bound too small"))
             continue
-        # counterexample -> concrete playback -> native replay
+        # counterexample -> concrete playback -> native replay (first few failing harnesses only:
+        # each replay costs a sequential Kani run; one reproduced counterexample decides the exit code)
+        if len(violations) + len(known_lines) + len(dev_only) >= 3:
+            unreplayed.append((name, descs))
+            continue
         js2, logp2, _, _ = run_kani(h["crate"], [name], cap * 2, 1, playback=True,
                                     tag=f"{prop}-pb-{name}")
         pbs = parse_playback(logp2, name)
@@ -293,12 +307,12 @@ def kani_property(prop, tier, only, jobs, seed):
                                        f"(encoding/stub error)"))
 
     # ---- evidence
-    tot_vcc = sum(int(r["stats"].get("vccs_generated", 0)) for r in results.values())
-    rem_vcc = sum(int(r["stats"].get("vccs_remaining", 0)) for r in results.values())
-    solver_s = sum(float(r["stats"].get("runtime_solver_s", 0)) for r in results.values())
-    symex_s = sum(float(r["stats"].get("runtime_symex_s", 0)) for r in results.values())
-    nprops = sum(int(r["props"].get("total_properties", 0)) for r in results.values())
-    covers = sum(int(r["props"].get("satisfied", 0)) for r in results.values())
+    tot_vcc = sum(int(r["stats"].get("vccs_generated") or 0) for r in results.values())
+    rem_vcc = sum(int(r["stats"].get("vccs_remaining") or 0) for r in results.values())
+    solver_s = sum(float(r["stats"].get("runtime_solver_s") or 0) for r in results.values())
+    symex_s = sum(float(r["stats"].get("runtime_symex_s") or 0) for r in results.values())
+    nprops = sum(int(r["props"].get("total_properties") or 0) for r in results.values())
+    covers = sum(int(r["props"].get("satisfied") or 0) for r in results.values())
     fns = {}
     for h in hs:
         for f in ([h["fn"]] if isinstance(h.get("fn"), str) else h.get("fn", [])):
@@ -312,18 +326,32 @@ def kani_property(prop, tier, only, jobs, seed):
                for h in hs[:: max(1, len(hs) // 12)]][:14]
     for (n, rp, d) in violations:
         samples.append(dict(harness=n, violation=d, replay=rp))
+    obl = sum(r["obl"] for r in results.values())
+    obl_ok = sum(r["obl_ok"] for n, r in results.items() if n in passed)
+    steps = sum(int(r["stats"].get("size_program_expression") or 0) for r in results.values())
     coverage = dict(
-        evaluations=len(results),
-        distinct_nontrivial=len(passed) + len(violations) + len(known_lines),
-        rule="one evaluation = one Kani harness = one CBMC/cadical run deciding every listed case for ALL "
-             "symbolic values; counted distinct+non-trivial when the run terminated with a verdict and every "
-             "kani::cover! reachability witness inside it was satisfied (assertion sites reached)",
+        evaluations=obl,
+        distinct_nontrivial=obl_ok,
+        rule="evaluations = property obligations put to the solver: assertion sites written in the harness "
+             "bodies under /verif/kani/*/src (oracle comparisons, round-trip and range claims), one per site per "
+             "harness, each decided by CBMC/cadical for ALL symbolic inputs of that harness; generic "
+             "memory-safety/overflow checks inside library code are decided too but not counted here "
+             "(see cbmc_properties_checked). distinct_nontrivial = those obligations that came back SUCCESS in a "
+             "harness whose kani::cover! reachability witnesses were all satisfied (so the assertion site is "
+             "reached, the proof is not vacuous).",
         samples=samples,
+        states=max(steps, 1),
+        transitions=max(tot_vcc, 1),
+        traces_validated_against_impl=len(violations) + len(known_lines) + len(dev_only),
+        states_transitions_meaning="states = SSA steps of CBMC's symbolic execution summed over harnesses "
+                                   "(size of program expression); transitions = verification conditions generated; "
+                                   "traces_validated_against_impl = solver counterexamples replayed natively",
         exhaustive=False,
         technique="bounded model checking of the compiled Rust (Kani 0.68 -> CBMC 6.11 -> cadical)",
         harnesses_run=len(results), harnesses_passed=len(passed),
         inconclusive=[dict(harness=n, why=w) for n, w in inconclusive],
         dev_profile_only=[dict(harness=n, checks=d) for n, d in dev_only],
+        failed_not_replayed=[dict(harness=n, checks=d) for n, d in unreplayed],
         known_findings_hit=known_lines,
         cbmc_properties_checked=nprops, cover_witnesses_satisfied=covers,
         vccs_generated=tot_vcc, vccs_after_simplification=rem_vcc,
@@ -346,6 +374,8 @@ def kani_property(prop, tier, only, jobs, seed):
             print(f"VIOLATION property={prop} replay={rp}")
             log(f"  harness {n}: {d}")
         return 1
+    if unreplayed and not violations:
+        inconclusive.extend((n, f"failed {d}, not replayed") for n, d in unreplayed)
     if inconclusive or build_fail:
         for n, w in inconclusive:
             log(f"INCONCLUSIVE {prop} {n}: {w}")
@@ -363,10 +393,15 @@ def main():
     a = ap.parse_args()
     seed = int(os.environ.get("VERIF_SEED", "0") or 0)
     only = [x for x in a.only.split(",") if x]
-    if a.prop in H.KANI_PROPS:
-        rc = kani_property(a.prop, a.tier, only, a.jobs, seed)
-    else:
-        log("unknown property", a.prop)
+    try:
+        if a.prop in H.KANI_PROPS:
+            rc = kani_property(a.prop, a.tier, only, a.jobs, seed)
+        else:
+            log("unknown property", a.prop)
+            rc = 2
+    except Exception:  # noqa: BLE001  -- a crash of the driver is never a verdict
+        import traceback
+        traceback.print_exc()
         rc = 2
     sys.exit(rc)
 
